@@ -1,5 +1,5 @@
 (* C07 — proofs about models/Blocked.v *)
-From Coq Require Import List NArith Bool Btauto String.
+From Coq Require Import List NArith Bool Btauto String Sorting.Permutation.
 Import ListNotations.
 Require Import V.lib.Bytes V.models.Blocked.
 Require V.gen.BlockedKinds.
@@ -156,9 +156,11 @@ Qed.
 
 Lemma step_excl : forall tb e, excl (handlers tb) = true -> excl (handlers (step tb e)) = true.
 Proof.
-  intros tb e H. destruct e as [cs|id]; cbn [step].
+  intros tb e H. destruct e as [cs|id|ids|]; cbn [step].
   - unfold ensure_pass. apply ensure_loop_excl; [exact H | apply handlers_in_all].
   - apply excl_handlers_filter. exact H.
+  - exact H.
+  - reflexivity.
 Qed.
 
 Theorem excl_invariant : forall evs, excl (handlers (run evs)) = true.
@@ -278,13 +280,15 @@ Qed.
 Lemma run_no_clean : forall evs, no_clean evs = true -> forall x, In x (run evs) -> snd x = false.
 Proof.
   intro evs. unfold run, no_clean.
-  assert (G : forall tb, forallb (fun e => match e with EEnsure cs => forallb no_clean_cand cs | EDone _ => true end) evs = true ->
+  assert (G : forall tb, forallb (fun e => match e with EEnsure cs => forallb no_clean_cand cs | _ => true end) evs = true ->
                          (forall x, In x tb -> snd x = false) -> forall x, In x (fold_left step evs tb) -> snd x = false).
   { induction evs as [|e evs IH]; intros tb NC H; cbn; [exact H|].
     cbn in NC. apply andb_true_iff in NC. destruct NC as [NC1 NC2]. apply IH; [exact NC2|].
-    destruct e as [cs|id]; cbn [step].
+    destruct e as [cs|id|ids|]; cbn [step].
     - unfold ensure_pass. apply ensure_loop_no_clean; assumption.
-    - intros x Hx. apply filter_In in Hx. apply H. tauto. }
+    - intros x Hx. apply filter_In in Hx. apply H. tauto.
+    - exact H.
+    - intros x []. }
   intros NC. apply G; [exact NC | intros x []].
 Qed.
 
@@ -304,6 +308,132 @@ Proof.
   { unfold handlers. apply in_map_iff. exists (a, false). split; [reflexivity|]. apply filter_In. split; [exact Ha | reflexivity]. }
   rewrite (gadget_alone evs a H Hg). reflexivity.
 Qed.
+
+(* ------------------------------------------------------------------------------------------ gadget update: pass level *)
+
+(* a task that gets a handler tomb in a pass was, at its turn, not blocked by a running list that contains every task
+   that had a tomb when the pass began *)
+Lemma ensure_loop_started : forall t cs tb running base,
+  incl base running -> In (t, false) (ensure_loop tb running cs) ->
+  In (t, false) tb \/ exists r', incl base r' /\ blocked t r' = false.
+Proof.
+  intros t. induction cs as [|c cs IH]; intros tb running base HI H; cbn [ensure_loop] in H; [left; exact H|].
+  destruct c as [u|u|].
+  - destruct (has_tomb (t_id u) tb); [eapply IH; eassumption|].
+    destruct (blocked u running) eqn:B; [eapply IH; eassumption|].
+    destruct (IH _ _ base (fun x Hx => in_or_app _ _ x (or_introl (HI x Hx))) H) as [Hin|Hex]; [|right; exact Hex].
+    apply in_app_iff in Hin. destruct Hin as [Hin|[E|[]]]; [left; exact Hin|].
+    inversion E; subst u. right. exists running. split; assumption.
+  - destruct (has_tomb (t_id u) tb); [eapply IH; eassumption|].
+    destruct (IH _ _ base HI H) as [Hin|Hex]; [|right; exact Hex].
+    apply in_app_iff in Hin. destruct Hin as [Hin|[E|[]]]; [left; exact Hin | discriminate].
+  - eapply IH; eassumption.
+Qed.
+
+(* update-gadget-assets is never started by a pass that begins with any tomb at all (handler or cleanup) *)
+Theorem gadget_never_starts_next_to_running : forall tb cs t,
+  is_gadget t = true -> In (t, false) (ensure_pass tb cs) -> ~ In (t, false) tb -> tb = [].
+Proof.
+  intros tb cs t Hg H Hn. unfold ensure_pass in H.
+  destruct (ensure_loop_started t cs tb (map fst tb) (map fst tb) (incl_refl _) H) as [Hin|[r' [HI HB]]]; [contradiction|].
+  destruct r' as [|u r'].
+  - destruct tb as [|x tb]; [reflexivity|]. exfalso. apply (HI (fst x)). left. reflexivity.
+  - rewrite gadget_waits_for_running in HB; [discriminate | exact Hg | discriminate].
+Qed.
+
+(* while update-gadget-assets has a handler tomb no pass starts another handler *)
+Theorem nothing_starts_next_to_gadget : forall tb cs a x,
+  In (a, false) tb -> is_gadget a = true -> In (x, false) (ensure_pass tb cs) -> In (x, false) tb.
+Proof.
+  intros tb cs a x Ha Hg H. unfold ensure_pass in H.
+  destruct (ensure_loop_started x cs tb (map fst tb) (map fst tb) (incl_refl _) H) as [Hin|[r' [HI HB]]]; [exact Hin|].
+  exfalso. rewrite blocked_is_conflict in HB.
+  assert (existsb (conflict x) r' = true).
+  { apply existsb_exists. exists a. split.
+    - apply HI. apply in_map_iff. exists (a, false). split; [reflexivity | exact Ha].
+    - rewrite conflict_alt, Hg. apply orb_true_r. }
+  congruence.
+Qed.
+
+(* everything that has a goroutine next to an executing update-gadget-assets handler is a cleanup: the exact carve-out
+   of the known finding *)
+Theorem gadget_coexists_only_with_cleanups : forall evs a x,
+  In (a, false) (run evs) -> is_gadget a = true -> In x (run evs) -> x = (a, false) \/ snd x = true.
+Proof.
+  intros evs a x Ha Hg Hx. destruct x as [u c]. destruct c; [right; reflexivity|]. left.
+  assert (Hh : In a (handlers (run evs))).
+  { unfold handlers. apply in_map_iff. exists (a, false). split; [reflexivity|]. apply filter_In. split; [exact Ha | reflexivity]. }
+  assert (Hu : In u (handlers (run evs))).
+  { unfold handlers. apply in_map_iff. exists (u, false). split; [reflexivity|]. apply filter_In. split; [exact Hx | reflexivity]. }
+  rewrite (gadget_alone evs a Hh Hg) in Hu. destruct Hu as [<-|[]]. reflexivity.
+Qed.
+
+(* ------------------------------------------------------------------------------------------ predicate composition *)
+
+Lemma blocked_registered : forall t running, blocked t running = blocked_by registered t running.
+Proof. intros. unfold blocked, verdicts, blocked_by, registered, add_blocked. cbn. reflexivity. Qed.
+
+Lemma existsb_perm : forall {A} (f : A -> bool) l l', Permutation l l' -> existsb f l = existsb f l'.
+Proof.
+  intros A f l l' P. induction P; cbn; try congruence.
+  destruct (f x), (f y); reflexivity.
+Qed.
+
+(* the order in which the managers call AddBlocked does not matter *)
+Theorem blocked_order_irrelevant : forall ps ps' t running,
+  Permutation ps ps' -> blocked_by ps t running = blocked_by ps' t running.
+Proof. intros. unfold blocked_by. apply existsb_perm. assumption. Qed.
+
+Theorem blocked_any_registration_order : forall ps t running,
+  Permutation registered ps -> blocked_by ps t running = existsb (conflict t) running.
+Proof.
+  intros ps t running P. rewrite <- (blocked_order_irrelevant _ _ t running P), <- blocked_registered.
+  apply blocked_is_conflict.
+Qed.
+
+(* adding a further predicate can only block more: the exclusions proved here survive any additional AddBlocked *)
+Theorem add_blocked_monotone : forall ps p t running,
+  blocked_by ps t running = true -> blocked_by (add_blocked ps p) t running = true.
+Proof.
+  intros ps p t running H. unfold blocked_by, add_blocked in *. apply existsb_exists in H. destruct H as [q [H1 H2]].
+  apply existsb_exists. exists q. split; [apply in_or_app; left; exact H1 | exact H2].
+Qed.
+
+(* ------------------------------------------------------------------------------------------ someBlocked *)
+
+Lemma ensure_loop_tomb_mono : forall cs tb running id,
+  has_tomb id tb = true -> has_tomb id (ensure_loop tb running cs) = true.
+Proof.
+  induction cs as [|c cs IH]; intros tb running id H; cbn [ensure_loop]; [exact H|].
+  assert (Happ : forall y, has_tomb id (tb ++ [y]) = true) by (intro y; unfold has_tomb in *; rewrite existsb_app, H; reflexivity).
+  destruct c as [u|u|]; [| |apply IH; exact H].
+  - destruct (has_tomb (t_id u) tb); [apply IH; exact H|]. destruct (blocked u running); apply IH; auto.
+  - destruct (has_tomb (t_id u) tb); apply IH; auto.
+Qed.
+
+(* a candidate that reached the blocked check and has no tomb after the pass was blocked: r.someBlocked is then set, so
+   the next finishing goroutine asks for another Ensure and the task is reconsidered *)
+Lemma some_blocked_loop_complete : forall t cs tb running,
+  In (CRun t) cs -> has_tomb (t_id t) (ensure_loop tb running cs) = false -> some_blocked_loop tb running cs = true.
+Proof.
+  intros t. induction cs as [|c cs IH]; intros tb running Hin Hn; [contradiction|].
+  cbn [ensure_loop] in Hn. cbn [some_blocked_loop].
+  destruct Hin as [->|Hin].
+  - destruct (has_tomb (t_id t) tb) eqn:HT.
+    + rewrite (ensure_loop_tomb_mono cs tb running _ HT) in Hn. discriminate.
+    + destruct (blocked t running); [reflexivity|].
+      assert (has_tomb (t_id t) (tb ++ [(t, false)]) = true).
+      { unfold has_tomb. rewrite existsb_app. cbn. rewrite N.eqb_refl. rewrite orb_true_r. reflexivity. }
+      rewrite (ensure_loop_tomb_mono cs _ _ _ H) in Hn. discriminate.
+  - destruct c as [u|u|]; [| |apply IH; assumption].
+    + destruct (has_tomb (t_id u) tb); [apply IH; assumption|].
+      destruct (blocked u running); [reflexivity | apply IH; assumption].
+    + destruct (has_tomb (t_id u) tb); apply IH; assumption.
+Qed.
+
+Theorem some_blocked_complete : forall t cs tb,
+  In (CRun t) cs -> has_tomb (t_id t) (ensure_pass tb cs) = false -> some_blocked tb cs = true.
+Proof. intros. unfold some_blocked. eapply some_blocked_loop_complete; eassumption. Qed.
 
 (* why `running` must contain every task with a tomb irrespective of its status: if the pass only looked at a subset
    `vis` of them (say, those in Doing/Undoing status, dropping a task aborted while its handler still executes), a
